@@ -185,7 +185,12 @@ def gen_dag(rnd, *, cycle=None, pull_prob=0.25, parallel_prob=0.25, offsets=True
                 down = [["dfix", rnd.choice([0.5, min(comps[j]["steps"])])]]
             links.append(dict(src=src, dst=[f"c{j}", dst_in], chain=down))
             if twin:
-                links.append(dict(src=src, dst=[f"c{j}", comps[j]["nin"]], chain=[]))
+                src2 = src
+                if rnd.random() < 0.5:
+                    # second link from a second output of the same pull-based component
+                    p["nout"] = 2
+                    src2 = [src[0], 1]
+                links.append(dict(src=src2, dst=[f"c{j}", comps[j]["nin"]], chain=[]))
                 comps[j]["nin"] += 1
         else:
             links.append(dict(src=[f"c{i}", 0], dst=[f"c{j}", dst_in], chain=chain))
